@@ -102,6 +102,13 @@ def _is_generator(node):
     return False
 
 
+class StarArgs:
+    """Marker for a call `f(a, b, *xs)` whose `xs` has symbolic length: pass StarArgs(xs) as the last positional argument."""
+
+    def __init__(self, seq):
+        self.seq = seq
+
+
 class LoopSpec:
     """Inductive invariant for one loop of a function under contract (DESIGN 2.3).
 
@@ -190,7 +197,9 @@ class Interp:
             if i < len(args):
                 bound[p] = args[i]
         extra = args[n:]
-        if a.vararg:
+        if a.vararg and len(extra) == 1 and isinstance(extra[0], StarArgs):
+            bound[a.vararg.arg] = extra[0].seq   # f(*xs) with xs a sequence of symbolic length
+        elif a.vararg:
             bound[a.vararg.arg] = tuple(extra)
         elif extra:
             raise PyRaise(TypeError(f"{clo.qualname}() takes {n} positional arguments but {len(args)} were given"))
@@ -2293,7 +2302,10 @@ def _m_list(interp, v=None):
     if v is None:
         return []
     if isinstance(v, SSeq) and not z3.is_int_value(z3.simplify(v.len)):
-        return v
+        # list(xs) is a NEW list: a mutable copy (append / pop on it never touch xs)
+        c = SSeq(v.len, v.get, name=f"list({v.name})")
+        c.mutable = True
+        return c
     return list(interp.iterate(v))
 
 
@@ -2779,8 +2791,22 @@ def _seq_append(interp, s, x):
     return None
 
 
+def _seq_pop(interp, s, *idx):
+    """list.pop() (last element) on a symbolic-length list that is known to be unaliased (`mutable`)"""
+    if not getattr(s, "mutable", False):
+        raise Undecided("pop on a symbolic sequence that is not known to be an unaliased list")
+    if idx:
+        raise Undecided("list.pop(index) on a symbolic sequence")
+    if not interp.ctx.branch(s.len > 0):
+        raise PyRaise(IndexError("pop from empty list"))
+    last = s.at(z3.simplify(s.len - 1))
+    s.len = z3.simplify(s.len - 1)
+    s._cache = {}
+    return last
+
+
 METHODS = {
-    (SSeq, "append"): _seq_append,
+    (SSeq, "append"): _seq_append, (SSeq, "pop"): _seq_pop,
     (SSet, "difference"): _set_difference, (SSet, "union"): _set_union,
     (SSet, "intersection"): _set_intersection, (SSet, "add"): _set_add, (SSet, "remove"): _set_remove,
     (SSet, "discard"): _set_discard, (SSet, "copy"): _set_copy, (SSet, "update"): _set_update,
